@@ -37,6 +37,11 @@ func vfNewConn() (*net.UnixConn, *vfPeer) {
 		nd.Replace("(*net.UnixConn).ReadMsgUnix", vfReadMsgUnix)
 		nd.Replace("(*net.UnixConn).WriteMsgUnix", vfWriteMsgUnix)
 		nd.Replace("(*net.UnixConn).Close", vfCloseUnix)
+		// plain Read / Write of the connection (methods of the embedded net.conn, whose first and
+		// only field placement makes its address the UnixConn's address)
+		nd.Replace("(*net.conn).Read", vfReadUnix)
+		nd.Replace("(*net.conn).Write", vfWriteUnix)
+		nd.Replace("(*net.conn).Close", vfCloseUnix)
 	} else {
 		fds, err := syscall.Socketpair(syscall.AF_UNIX, syscall.SOCK_STREAM, 0)
 		if err != nil {
@@ -100,6 +105,21 @@ func vfReadMsgUnix(c *net.UnixConn, b, oob []byte) (n, oobn, flags int, addr *ne
 	nd.CopyN(b, p.reads[p.pos], n)
 	p.pos++
 	return n, 0, 0, nil, nil
+}
+
+// vfReadUnix / vfWriteUnix: the connection's plain Read and Write. As for every net.Conn, the end of
+// the stream is the bare io.EOF (not wrapped in a *net.OpError, unlike ReadMsgUnix).
+func vfReadUnix(c *net.UnixConn, b []byte) (int, error) {
+	n, _, _, _, err := vfReadMsgUnix(c, b, nil)
+	if oe, ok := err.(*net.OpError); ok && oe.Err == io.EOF {
+		return 0, io.EOF
+	}
+	return n, err
+}
+
+func vfWriteUnix(c *net.UnixConn, b []byte) (int, error) {
+	n, _, err := vfWriteMsgUnix(c, b, nil, nil)
+	return n, err
 }
 
 func vfWriteMsgUnix(c *net.UnixConn, b, oob []byte, addr *net.UnixAddr) (n, oobn int, err error) {
